@@ -6,6 +6,7 @@ import ChythonModel.Proofs.C15Cx
 import ChythonModel.Proofs.C15Rxn
 import ChythonModel.Proofs.C15Dict
 import ChythonModel.Model.C15CgrTokens
+import ChythonModel.Model.C15Hash
 import ChythonModel.Model.C15Read
 /-!
 # C15 — reactions: role-preserving I/O, order-free identity, exact condensed graph
@@ -418,5 +419,24 @@ example :
   refine ⟨?_, ?_, by decide⟩
   · simp [DisjointIds, Mol.ids]
   · simp [DisjointIds]
+
+/-! ## part 8 — the invariants that seed the canonical numbering tell the dynamic states apart
+
+`str(cgr)` can be independent of the numbering only if atoms / bonds in different dynamic states get different Morgan
+seeds (`hash(atom)`, `hash(bond)`); otherwise two non-equivalent atoms share a class and the tie is broken by number.
+The run-time side is the `mirror` relation (X–C–X with two different states in mirror positions, numbers swapped). -/
+
+/-- **dyn_bond_hash_injective.** All 35 states of a dynamic bond have pairwise different hashes. -/
+theorem dyn_bond_hash_injective : (bondStates.map dynBondHash).Nodup := by decide +kernel
+
+/-- Full statement for atoms: all charge / radical states (charges −4…4) of one element have different hashes. -/
+def DynAtomHashInjective : Prop :=
+  ((atomStates 6 [-4, -3, -2, -1, 0, 1, 2, 3, 4]).map dynAtomHash).Nodup
+
+/-- **dyn_atom_hash_injective_partial.** Proved part: all states whose charges avoid −1. The excluded class is exactly
+    CPython's `hash(-1) == hash(-2)`: a state with charge −1 collides with the same state with −2 in that position
+    (known finding `C15/cgr-string/renumbering/hash-minus-one`, witness in `Findings/C15.lean`). -/
+theorem dyn_atom_hash_injective_partial :
+    ((atomStates 6 [-4, -3, -2, 0, 1, 2, 3, 4]).map dynAtomHash).Nodup := by decide +kernel
 
 end ChythonModel.Props.C15
